@@ -93,9 +93,9 @@ def get_facts(config='default', repo=REPO, quiet=True):
             sys.stderr.write(r.stdout[-3000:])
             raise SystemExit('extraction failed: the driver wrote no fact file (wrapper skipped?)')
         os.rename(out + '.new', out)
-        # keep the cache small: drop fact files other than the 6 newest
+        # keep the cache small: drop fact files other than the 30 newest
         fs = sorted(glob.glob(os.path.join(CACHE, 'facts', '*.json')), key=os.path.getmtime)
-        for f in fs[:-8]:
+        for f in fs[:-30]:
             try:
                 os.remove(f)
             except OSError:
